@@ -200,7 +200,7 @@ class BasicVisitor(NodeVisitor):
             else_statements,
         ) = visited_children
         return BasicIfElse(
-            if_exp=if_exp,
+            if_exp=self._as_bool_exp(if_exp),
             then_statements=line_or_stmnts,
             else_if_statements=else_if_statements,
             else_statements=else_statements,
@@ -209,7 +209,7 @@ class BasicVisitor(NodeVisitor):
     def visit_if_else_stmnt(self, _, visited_children) -> BasicIfElse:
         _, _, if_exp, _, _, _, line_or_stmnts, _, else_statements = visited_children
         return BasicIfElse(
-            if_exp=if_exp,
+            if_exp=self._as_bool_exp(if_exp),
             then_statements=line_or_stmnts,
             else_if_statements=[],
             else_statements=else_statements,
@@ -217,19 +217,23 @@ class BasicVisitor(NodeVisitor):
 
     def visit_if_stmnt(self, _, visited_children):
         _, _, exp, _, _, _, statements = visited_children
+        return BasicIf(self._as_bool_exp(exp), statements)
+
+    @staticmethod
+    def _as_bool_exp(exp: AbstractBasicExpression) -> AbstractBasicExpression:
+        """Turns a numeric IF condition into the BASIC09 boolean exp <> 0."""
         is_bool = isinstance(
             exp,
             (BasicBooleanBinaryExp, BasicBooleanOpExp, BasicBooleanParenExp),
         )
-        exp = exp if is_bool else BasicBooleanBinaryExp(exp, "<>", BasicLiteral(0.0))
-        return BasicIf(exp, statements)
+        return exp if is_bool else BasicBooleanBinaryExp(exp, "<>", BasicLiteral(0.0))
 
     def visit_else_if_stmnts(self, _, visited_children: List[BasicIf]) -> List[BasicIf]:
         return visited_children
 
     def visit_else_if_stmnt(self, _, visited_children) -> BasicIf:
         _, _, _, _, if_exp, _, _, _, line_or_stmnts, _ = visited_children
-        return BasicIf(if_exp, line_or_stmnts)
+        return BasicIf(self._as_bool_exp(if_exp), line_or_stmnts)
 
     def visit_if_exp(self, _, visited_children) -> AbstractBasicExpression:
         return visited_children[0]
